@@ -359,7 +359,7 @@ impl<'a> G<'a> {
         match k {
             0 | 1 => { let s = self.pick(&["0", "1", "42", "100", "0ffx", "007"]); self.mark(s, MK::IntOperand); self.tp(); }
             2 => self.mvar(true),
-            3 => { let w = self.pick(&["abc", "x1", "txt", "é"]); self.p(w); }
+            3 => { let w = self.pick(&["abc", "x1", "txt", "é", "a b c", "1 2 3", "x.y", "a_1 b"]); self.p(w); }
             4 => { self.feat("eval-parens"); self.mark("(", MK::Op("LPAREN")); self.ows(); self.eval_expr(float, false); self.gap_after_expr(); self.mark(")", MK::Op("RPAREN")); }
             5 => { self.user_call(2); self.p(" "); }
             6 => { self.d_inc(); self.builtin_call(2); self.depth -= 1; }
